@@ -17,6 +17,9 @@ MAIN = os.path.join(VERIF, "sim", "main.py")
 NPROC = min(16, os.cpu_count() or 1)
 
 
+EXTRA_EVIDENCE = {}
+
+
 def log(*a):
     print(*a, file=sys.stderr, flush=True)
 
@@ -115,6 +118,21 @@ def check(pid, tier):
             harness_exit(f"{len(harness)} harness errors; first: "
                          f"{harness[0][:1500]}")
 
+        # ---------------- machine-specific parent-side checks
+        extra = m.extra_checks(tier, src) or {}
+        if extra.get("harness"):
+            write_evidence(m, pid, tier, seed, results, t0, batch_wall,
+                           {}, [], None, harness=extra["harness"])
+            harness_exit(extra["harness"][0])
+        if extra.get("violations"):
+            results.append({"idx": 10 ** 9, "status": "ok", "digest": "",
+                            "violations": [dict(v, victim=None) for v in
+                                           extra["violations"]],
+                            "run": {"config": {"lru": configs[0]},
+                                    "extra_check": True}})
+        EXTRA_EVIDENCE.clear()
+        EXTRA_EVIDENCE.update(extra.get("evidence") or {})
+
         # ---------------- determinism self-test on a sample of this batch
         det = determinism_sample(pid, seed, tier, configs, results, m)
         if det["mismatches"]:
@@ -144,6 +162,14 @@ def check(pid, tier):
         for sig, (r, v) in list(unknown.items()):
             if len(reported) >= n_min and not os.environ.get("VERIF_ALL"):
                 break
+            if r["run"].get("extra_check"):
+                # parent-side check: nothing to minimise, replayed by
+                # running the extra check again
+                if F.match(known, sig) is None:
+                    path = write_replay(pid, seed, tier, r["idx"], r["run"],
+                                        v, 0)
+                    reported.append((v, path, r["idx"]))
+                continue
             proc = next((p for p in pool.procs
                          if p.lru == r["run"]["config"]["lru"]
                          and not p.dead), None)
@@ -303,6 +329,7 @@ def write_evidence(m, pid, tier, seed, results, t0, batch_wall, known_seen,
                            if len(v) <= 60},
         "workers": NPROC,
     }
+    cov.update(EXTRA_EVIDENCE)
     if m.has_clock:
         cov["simulated_time_s"] = round(sim_time, 3)
     else:
@@ -332,6 +359,14 @@ def replay(path, quiet=False):
         src = build.ensure(verbose=False)
     except RuntimeError as e:
         harness_exit(f"build: {e}")
+    if rep["run"].get("extra_check"):
+        extra = machine_meta(pid).extra_checks("thorough", src) or {}
+        hit = [v for v in extra.get("violations", [])
+               if v["sig"] == rep["signature"]]
+        for v in hit:
+            print(f"violation sig={v['sig']}\n    {v['detail'][:800]}")
+            print(f"VIOLATION property={pid} replay={path}", flush=True)
+        sys.exit(1 if hit else 0)
     from . import worker as W
     W.setup(src, rep["run"]["config"]["lru"])
     res = W.execute(pid, rep["run"])
